@@ -331,6 +331,7 @@ def run(ctx):
     r12_4(ctx)
     r12_5(ctx)
     r12_6(ctx)
+    r12_7(ctx)
 
 
 # per-token state the "same code as another configuration" key must cover; one line of reason each (confirmed on the pinned tree)
@@ -374,3 +375,54 @@ def r12_6(ctx):
         ctx.ob('R12.6', 'purge-key:%s' % acc.split('::')[-1], ok, ('%s reads %s of every token' % (g['name'], acc)) if ok else
                ('%s, the key on which CppCheck::checkInternal skips a configuration as a duplicate, no longer reads %s (%s): two configurations that differ only there collide '
                 'and the second one is analysed in no configuration' % (g['name'], acc, why)), '%s:%s' % (g['file'], g['line']))
+
+
+def r12_7(ctx):
+    """R12.7  the configuration enumerator keeps its condition stack balanced: the arm that handles #elif / #else replaces the top entry of the stack of
+    enclosing conditions - on every path that reaches the end of the arm, the pop is followed by a push.  A path that pops without pushing lets the matching
+    #endif pop the entry of the *enclosing* #ifdef, so guards that follow inside the outer block are enumerated without the outer macro and their region
+    is analysed in no configuration."""
+    F = ctx.facts
+    ctx.rule('R12.7', 'the #elif/#else arm of the configuration enumerator pushes a replacement entry on every path that reaches its end')
+    top = F.one('Preprocessor::getConfigs')
+    en = None
+    for x in walk(F.body(top)['body']):
+        if x.get('k') == 'CallExpr' and (x.get('fn') or '').split('::')[-1] == 'getConfigs' and x.get('fid'):
+            for g in F.resolve(top, x['fid']):
+                if F.body(g) is not None:
+                    en = g
+    if en is None:
+        raise AnalysisBroken('configuration enumerator not found')
+    body = F.body(en)['body']
+    arms = [x for x in walk(body) if x.get('k') == 'IfStmt' and x.get('cond') is not None and
+            {'elif', 'else'} <= {y.get('v') for y in walk(x['cond']) if y.get('k') == 'StringLiteral'}]
+    ctx.floor('R12.7 #elif/#else arms', len(arms), 1)
+    for i, arm in enumerate(arms):
+        then = arm.get('then') or {}
+        pops = [y for y in walk(then) if y.get('k') == 'CXXMemberCallExpr' and (y.get('fn') or '').endswith('::pop_back')]
+        stacks = set()
+        for y in pops:
+            for z in walk(y['c'][0]):
+                if z.get('k') == 'DeclRefExpr' and z.get('dk') == 'Var':
+                    stacks.add(z['di'])
+        if len(stacks) != 1:
+            raise AnalysisBroken('enumerator #else arm: %d stacks popped' % len(stacks))
+        st = next(iter(stacks))
+
+        def on_stack(y, names):
+            return y.get('k') == 'CXXMemberCallExpr' and (y.get('fn') or '').rsplit('::', 1)[-1] in names and \
+                any(z.get('k') == 'DeclRefExpr' and z.get('di') == st for z in walk(y['c'][0]))
+
+        def gen(y):
+            return ['pushed'] if on_stack(y, ('push_back', 'emplace_back')) else ()
+
+        def kill(y):
+            return ['pushed'] if on_stack(y, ('pop_back',)) else ()
+        res = paths.analyse(then, gen=gen, kill=kill)
+        ends = [(k, n, s) for k, n, s in res.exits if k == 'end']
+        if not ends:
+            raise AnalysisBroken('enumerator #else arm: end of the arm not reached by the analysis')
+        ok = all('pushed' in s for _, _, s in ends)
+        ctx.ob('R12.7', 'else-arm-balanced#%d' % i, ok, 'every path to the end of the #elif/#else arm pushes a replacement for the popped entry' if ok else
+               ('the #elif/#else arm of the configuration enumerator (line %s) pops the entry of its #if and reaches its end on a path without a push: the matching #endif then pops the '
+                'entry of the enclosing #ifdef and later guards of the outer block lose the outer macro' % arm['l']), '%s:%s' % (en['file'], arm['l']))
